@@ -400,8 +400,9 @@ def gen_call(rng, b, sig, params, allow_surplus=True, allow_recv_kw=False):
         # a keyword called `self`: on a plain function an undeclared keyword like every other (the function has no receiver),
         # on a method a second value for the receiver
         kw.append(('self', b.obj()))
-    if args and rng.random() < 0.05:
-        args[rng.randrange(len(args))] = rng.choice(args)        # the same object twice
+    if args and rng.random() < (0.25 if sig['varArgs'] and len(args) > len(pos_names) else 0.05):
+        # the same object twice - for *args functions often: a surplus positional EQUAL to a named positional (or to another surplus one)
+        args[rng.randrange(len(args))] = rng.choice(args)
     rng.shuffle(kw)
     if sig['varArgs']:
         # `a not in used_args` compares with ==: keep numerically equal literals of different types (0, False, 0.0) apart
@@ -1037,60 +1038,54 @@ def pfail_byname(case, impl, model):
 
 
 def pfail_gate(case, impl, model):
-    """P_C12, decided with spec.gate / spec.allowed"""
+    """P_C12, decided with spec.gate (every signature, `*args` included: items in processing order, the surplus positionals paired
+    with the declared parameters the caller did not supply) and, for what lands in `*args`, spec.allowed.
+    Returns None | message | ('FINDING:<id>', message): a failure inside a region the Lean side names (model['regions'] = the
+    complements of the guards of the `_partial` theorems) is attributed to the finding recorded for that region."""
     c = case['c']
     ran = impl['binding'] is not None
     sp = model['spec']
-    # every validator invocation receives its predecessor's output (self-consistency of the journal, any signature)
-    if not c['sig']['varArgs']:
-        g = sp['gate']
-        if impl['journal'] != g['journal']:
-            return f"validator invocations {impl['journal']} differ from the chain order the property prescribes {g['journal']}"
-        if 'exc' in g['out']:
-            if ran:
-                return f"the body ran although the gate raises {g['out']['exc']}"
-            if impl['out'] != g['out']['exc']:
-                return f"raised {impl['out']} instead of {g['out']['exc']}"
-            return None
-        res = dict((k, v) for k, v in g['out']['ok'])
-        if not ran:
-            if impl['out'][0].startswith('VAL:') or impl['out'][0].startswith('ESC:'):
-                return f"raised {impl['out']} although every step accepted"
-            return None
-        if c['mode'] == 'KWARGS_WITHOUT_NONE':
-            res = {k: v for k, v in res.items() if v is not None}
-        dfl = sig_defaults(c)
-        # by name, for every parameter - whatever the parameters and the keywords of the call are called (`self` included: the
-        # region of the repaired finding `selfKeywordBypassesGate` is an ordinary failure)
-        for n, v in impl['binding']['named']:
-            want = res[n] if n in res else dfl.get(n, '?')
-            if v != want:
-                return f'the body saw {v} for {NAMES[n]}; the chain output / default is {want}'
+    regions = model.get('regions') or {}
+
+    def fail(msg, arrival=False):
+        # the zip branch of the positional loop does not see exactly the surplus positionals / does not refuse them under strict
+        if regions.get('surplus'):
+            return ('FINDING:varPositionalSurplusDropped', msg)
+        # ARGS mode of a plain function with *args hands the dict over in arrival order
+        if arrival and regions.get('arrival'):
+            return ('FINDING:varArgsHandOverInArrivalOrder', msg)
+        return msg
+    g = sp['gate']
+    # every validator invocation receives its predecessor's output, in processing order, and none after the first failing item
+    if impl['journal'] != g['journal']:
+        return fail(f"validator invocations {impl['journal']} differ from the chain order the property prescribes {g['journal']}")
+    if 'exc' in g['out']:
+        if ran:
+            return fail(f"the body ran although the gate raises {g['out']['exc']}")
+        if impl['out'] != g['out']['exc']:
+            return fail(f"raised {impl['out']} instead of {g['out']['exc']}")
         return None
-    # *args functions: the gate predicate proper
-    if not distinct_parameters(c):
+    res = dict((k, v) for k, v in g['out']['ok'])
+    if not ran:
+        if impl['out'][0].startswith('VAL:') or impl['out'][0].startswith('ESC:'):
+            return fail(f"raised {impl['out']} although every step accepted")
         return None
-    rejected = None
-    for pn, j, i in impl['journal']:
-        for p in c['ps']:
-            if rejected is None and p['name'] == pn and j < len(p['vals']) and i is not None and i in p['vals'][j]['rej']:
-                rejected = (pn, j)
-    if rejected and (ran or impl['out'][0] != 'VAL:Parameter'):
-        return f"a validator rejected but the outcome is {impl['out']} (body ran: {ran})"
-    if rejected and impl['out'][1:] != [rejected[0], ['validator', rejected[1]]]:
-        # the exception names the Parameter whose chain rejected - whatever name the validator's own exception carries
-        return (f"validator {rejected[1]} of Parameter {NAMES[rejected[0]]} rejected, but the ParameterException names "
-                f"{NAMES[impl['out'][1]] if 0 <= impl['out'][1] < len(NAMES) else impl['out'][1]!r} / step {impl['out'][2]}")
-    if ran:
+    if c['mode'] == 'KWARGS_WITHOUT_NONE':
+        res = {k: v for k, v in res.items() if v is not None}
+    dfl = sig_defaults(c)
+    # by name, for every named parameter - whatever the parameters and the keywords of the call are called, with or without *args
+    for n, v in impl['binding']['named']:
+        want = res[n] if n in res else dfl.get(n, '?')
+        if v != want:
+            return fail(f'the body saw {v} for {NAMES[n]}; the chain output / default is {want}', arrival=True)
+    # what lands in *args: chain outputs, defaults or undeclared pass-throughs (name-insensitive)
+    if impl['binding']['extras']:
         allowed = sp['allowed']
-        for n, v in impl['binding']['named']:
-            if v not in allowed and n != 0:
-                return f'the body saw {v} for {NAMES[n]}, which is no chain output, default or undeclared pass-through'
         var_name = c['sig'].get('varName', 1)
         for v in impl['binding']['extras']:
             if v not in allowed:
-                return (f'the body saw {v} in *{NAMES[var_name]}, which is no chain output, default or undeclared pass-through'
-                        + (' (it is the tuple of the surplus positionals)' if v == c['sig'].get('tup') else ''))
+                return fail(f'the body saw {v} in *{NAMES[var_name]}, which is no chain output, default or undeclared pass-through'
+                            + (' (it is the tuple of the surplus positionals)' if v == c['sig'].get('tup') else ''), arrival=True)
     return None
 
 
@@ -1530,6 +1525,49 @@ def receiver_enum(rng):
                             elif recv == 'twice':
                                 kw = kw + [('self', b.obj())]
                             out.append(assemble(b, sig, params, strict, False, mode, is_async, args, kw, origin='receiver_enum'))
+    return out
+
+
+def varpos_surplus_enum(rng):
+    """the surplus positionals of a VAR_POSITIONAL parameter: def f(a, *rest) / def f(a, b, *rest), plain function and METHOD (the
+    receiver is a positional of the call too) x Parameters declared for a prefix of (a, b, c, d) (the rest take the surplus) x 0-3
+    surplus positionals x all distinct / the first surplus EQUAL to a named positional / two equal surplus values x strict x mode:
+    which Parameter validates which surplus positional, and TooManyArguments when strict leaves a surplus positional without Parameter"""
+    out = []
+    mk = lambda nm, **kw: dict({'name': nm, 'kind': 'plain', 'required': False, 'dflt': NOV, 'ext': NOV, 'vt': None,
+                                'vals': [{'rej': set(), 'crash': set(), 'map': 'mul', 'k': 1}], 'raw': None}, **kw)
+    ctr = rng.randrange(1000)
+    for method in (False, True):
+        for npos in (1, 2):
+            for ndecl in range(npos, 5):
+                for nsur in range(4):
+                    for equal in ('distinct', 'named', 'surplus'):
+                        if (equal == 'named' and nsur < 1) or (equal == 'surplus' and nsur < 2):
+                            continue
+                        for strict in (True, False):
+                            for mode in MODES:
+                                ctr += 1
+                                b = Builder()
+                                names = ['a', 'b', 'c', 'd'][:ndecl]
+                                sig = {'method': method, 'pos': [(n_, NOV) for n_ in names[:npos]], 'varArgs': True, 'kwOnly': [],
+                                       'varName': ['args', 'rest'][ctr % 2]}
+                                params = [mk(n_, required=(i < npos), dflt=(NOV if i < npos else b.obj())) for i, n_ in enumerate(names)]
+                                if ctr % 3 == 0:
+                                    params.reverse()
+                                args = [b.obj() for _ in range(npos + nsur)]
+                                if equal == 'named':
+                                    args[npos] = args[ctr % npos]
+                                elif equal == 'surplus':
+                                    args[npos + 1] = args[npos]
+                                kw = []
+                                if ctr % 5 == 0 and ndecl > npos:
+                                    kw = [(names[npos], b.obj())]          # one of the later Parameters supplied by keyword
+                                if ctr % 7 == 0 and nsur:
+                                    # the chain of the Parameter that should take the first surplus positional rejects it
+                                    tgt = [p_ for p_ in params if p_['name'] not in names[:npos] and p_['name'] not in [k for k, _ in kw]]
+                                    if tgt:
+                                        tgt[0]['vals'][0]['rej'].add(args[npos])
+                                out.append(assemble(b, sig, params, strict, False, mode, ctr % 4 == 1, args, kw, origin='varpos_surplus'))
     return out
 
 
